@@ -61,7 +61,7 @@ type LeafBuffer interface {
 
 type baseBuffer struct {
 	slice []byte
-	busy  sync.Mutex
+	busy  simLock // a sync.Mutex (see simyield.go)
 }
 
 func (m *baseBuffer) Bytes() []byte {
